@@ -10,7 +10,7 @@ import math
 import numpy as np
 
 from ..core import import_library
-from ..probe import Probe, Reach, check_unmutated, snapshot_arrays
+from ..probe import Probe, Reach, ResultKeeper, check_unmutated, snapshot_arrays
 
 WORKERS = {"quick": 1, "thorough": 16}
 
@@ -23,7 +23,7 @@ REF = {
     "very": lambda x: x * x,
 }
 CLASSES = {"any": "Any", "extremely": "Extremely", "not": "Not", "seldom": "Seldom", "somewhat": "Somewhat", "very": "Very"}
-MAX_JUDGED = 70_000
+MAX_JUDGED = 20_000
 
 
 class HedgeMonitor:
@@ -31,6 +31,7 @@ class HedgeMonitor:
         self.ctx, self.fl = ctx, fl
         self.table = {h: {} for h in REF} if table else None
         self.sel = __import__("random").Random(f"c05sel:{ctx.seed}:{ctx.shard}")
+        self.keeper = None  # ResultKeeper, set by the check's own workload
 
     def install(self, probe):
         for h, cname in CLASSES.items():
@@ -39,6 +40,8 @@ class HedgeMonitor:
     def _after(self, h):
         def after(args, kwargs, token, result, exc):
             x = check_unmutated(self.ctx, f"{h}: hedge", args, token)
+            if self.keeper is not None and exc is None and h != "any":
+                self.keeper.after_call(f"{h}: hedge", result, args[1:2])
             self.judge(h, x, result, exc)
 
         return after
@@ -63,7 +66,7 @@ class HedgeMonitor:
         if n <= MAX_JUDGED:
             idx = range(n)
         else:
-            idx = set(self.sel.sample(range(n), 512)) | set(np.argsort(np.abs(xs - 0.5))[:32].tolist())
+            idx = set(self.sel.sample(range(n), 512)) | set(np.argsort(np.abs(xs - 0.5))[:32].tolist()) | set(range(48)) | set(range(n - 48, n))
             ctx.hit("elements_not_judged", n - len(idx))
         ref = REF[h]
         tab = self.table[h] if self.table is not None else None
@@ -158,6 +161,7 @@ def run(ctx):
     with Reach(funcs) as reach, Probe() as probe:
         mon = HedgeMonitor(ctx, fl)
         mon.install(probe)
+        mon.keeper = ResultKeeper(ctx)
         H = {h: getattr(fl, c)() for h, c in CLASSES.items()}
         if ctx.seed % 2 or ctx.shard % 2:
             H = {h: fl.settings.factory_manager.hedge.construct(h) for h in CLASSES}  # the instances the rule parser uses
@@ -226,6 +230,20 @@ def run(ctx):
                     if not np.array_equal(np.asarray(r1), keep) and h != "any":
                         ctx.violation(f"{h}: a returned result changes when the argument array is later modified (aliases its argument)", {"hedge": h}, keep, r1)
                 hedge.hedge(buf)
+        # large batches: sizes on both sides of every power of two from 2^12 to 2^17 (block-wise fast paths), 1-D and as a transposed
+        # matrix; a sample of the elements is judged (always including both ends), and the inverse pairs go over the whole batch
+        for i, rnd in ctx.cases("sizes", 1):
+            gen = np.random.default_rng(ctx.seed + 7)
+            for n in [2**k + d for k in range(12, 18) for d in (0, 1)] + [100_000]:
+                x = gen.random(n)
+                x[::101] = 0.5
+                for h in names:
+                    H[h].hedge(x)
+                    if n % 2 == 0:
+                        H[h].hedge(x.reshape(2, -1).T)
+                if n <= 2**15 + 1:
+                    inverse_pairs(ctx, fl, x)
+                ctx.hit("workload:large batch")
         # a hedge given as a plain Python function of one degree: an array is either refused or handled element by element
         for i, rnd in ctx.cases("lambda", ctx.scale(300, 4000)):
             f, name = rnd.choice([(lambda x: min(1, 2 * x), "min(1, 2x)"), (lambda x: x * x if x < 0.5 else x, "x^2 below 1/2"), (lambda x: math.sqrt(x), "math.sqrt"), (lambda x: 1 if x > 0.5 else 0, "step")])
@@ -249,7 +267,7 @@ def run(ctx):
     ctx.exhaustive = True
     ctx.extra["exhaustive_space"] = f"all x = k/2^{m}, k = 0..2^{m}, for each of the 6 hedges (plus non-exhaustive random doubles)"
     for h in names:
-        ctx.require(f"hook:{CLASSES[h]}.hedge", "event:buffer refilled in place", "layout:transposed", "layout:read-only row broadcast over a batch", "workload:ends of the scale (negative zero, subnormals)", "lambda hedge: evaluated")
+        ctx.require(f"hook:{CLASSES[h]}.hedge", "event:buffer refilled in place", "layout:transposed", "layout:read-only row broadcast over a batch", "workload:ends of the scale (negative zero, subnormals)", "lambda hedge: evaluated", "workload:large batch", "law:results of earlier calls left alone")
     for h in ("extremely", "seldom"):
         for p in ("x<0.5", "x==0.5", "x>0.5"):
             ctx.require(f"piece:{h}:{p}")
